@@ -111,6 +111,7 @@ type leaderSighting struct {
 	Inc  *Incarnation
 	Term uint64
 	Seq  uint64
+	Ns   int64
 }
 
 func newRecorder(c *Cluster) *Recorder {
@@ -524,7 +525,14 @@ func (r *Recorder) checkOpsArePrefix(inc *Incarnation, ops []AppliedOp, what str
 		prev = o.Index
 		if reg, ok := r.Reg[o.Index]; ok && reg.Full {
 			if reg.Term != o.Term || reg.Hash != o.Hash || reg.Type != raft.OperationEntry {
-				r.violate("C10", "content-divergence", "index-conflict", "%s: %s holds index %d term=%d hash=%x, committed is term=%d type=%d hash=%x",
+				// A stale entry applied through the unlocked restore window of InstallSnapshot (F2:
+				// AppendEntries accepted against the published boundary over the stale log) ends up
+				// in the state machine and hence in its snapshots.
+				cause := r.tainted(inc.Node, "index-conflict", "F2")
+				if strings.HasPrefix(what, "installed") {
+					cause = r.taintedAny("index-conflict", "F2")
+				}
+				r.violate("C10", "content-divergence", cause, "%s: %s holds index %d term=%d hash=%x, committed is term=%d type=%d hash=%x",
 					inc.Name(), what, o.Index, o.Term, o.Hash, reg.Term, reg.Type, reg.Hash)
 				return
 			}
@@ -669,7 +677,7 @@ func (r *Recorder) onNewLeader(inc *Incarnation, st raft.Status) {
 	n := inc.Node
 	r.ev("leader %s term=%d", inc.Name(), st.Term)
 	r.probe("leader-elected")
-	r.leaderFirstSeen = append(r.leaderFirstSeen, leaderSighting{Inc: inc, Term: st.Term, Seq: r.seq})
+	r.leaderFirstSeen = append(r.leaderFirstSeen, leaderSighting{Inc: inc, Term: st.Term, Seq: r.seq, Ns: r.c.Sim.Now()})
 	m := n.Mirror
 	if conf, ok := r.c.configuration(inc); ok && r.c.Cfg.Membership {
 		// Signature of known finding F4: the node leads (and was elected) with a configuration
@@ -831,10 +839,20 @@ func (r *Recorder) handlerEnd(inc *Incarnation, m *Msg, ctx *HandlerCtx, err err
 			// already published, while the old log is still in place and the restore is running.
 			r.setTaint(n, "F2")
 		}
+		if !m.AEr.Success && n.ID == r.c.scenZ && m.From.Node.ID == r.c.scenL && m.AEr.Term == m.AE.Term {
+			r.probe("scenario-lagging-voter-rejected-new-leader")
+			r.c.scenRejectAt = r.c.Sim.Now()
+		}
+		if m.AEr.Success && n.ID == r.c.scenZ && m.From.Node.ID == r.c.scenL {
+			r.c.scenRejectAt = 0
+		}
 		r.replyTerm(inc, m.AEr.Term, "AppendEntries reply")
 		r.checkAE(inc, m, ctx)
 	case KindRV:
 		r.ev("handled RV#%d at %s granted=%v term=%d", m.ID, inc.Name(), m.RVr.VoteGranted, m.RVr.Term)
+		if n.ID == r.c.scenZ && r.c.scenRejectAt != 0 && r.c.Sim.Now()-r.c.scenRejectAt < int64(r.c.Cfg.LeaseMs)*1_000_000 {
+			r.probe("scenario-vote-request-at-lagging-voter-within-lease-of-rejection")
+		}
 		r.replyTerm(inc, m.RVr.Term, "RequestVote reply")
 		r.checkRV(inc, m, ctx)
 	case KindIS:
